@@ -943,7 +943,7 @@ func Run(r *mc.Run) {
 		"Oracle: three-valued nested-document evaluator — a conjunction joins at the deepest nesting level its fields share (single element, recursively for two levels), " +
 		"clauses on different arrays / top level combine per parent; counting operators (disjunction min ≥ 2, boolean parts) whose clauses all lie on one array are accepted element-level or parent-level; " +
 		"non-nested mapping = per-clause existential. Every search: hits are live parents, each once, Total = number of distinct parents; DocCount and match-all = parents. " +
-		"Part H (E1): every index/update/delete history (depth ≤ " + mc.Pick(r, "3", "4") + ") over 2–3 parents × 3 nested-document versions, one in-memory scorch segment per operation, and (depth ≤ 3" +
+		"Part H (E1): every index/update/delete history (depth ≤ " + mc.Pick(r, "3", "4") + ") over 2–3 parents × 3 nested-document versions, one in-memory scorch segment per operation; every history (depth ≤ " + mc.Pick(r, "2", "3") + ") that starts from three parents indexed by ONE batch (they share a segment, so later deletes and updates hit a segment that already carries deletions); and (depth ≤ 3" +
 		mc.Pick(r, ", 2 parents × 2 versions", ", 3 parents; 2 parents at depth 4") + ") on disk with merges held at EventKindPreMergeCheck, after ForceMerge, after close+reopen; after each history DocCount, match-all and 8 nested queries " +
 		"(term on each array and on the second level, same-element conjunction on both levels, parent+nested, item+sub conjunction, top-level/second-level disjunction) are compared with the reference model state " +
 		"(state key = map parent → version). An outcome is (mapping, root operator, hit-count bucket, three-valued?) for Q and the vector of observation sizes per physical stage for H.")
@@ -975,6 +975,10 @@ func Run(r *mc.Run) {
 	if !r.Expired() {
 		partHMem(r, ck, states)
 		lap("part_H_memory")
+	}
+	if !r.Expired() {
+		partHBatched(r, ck, states)
+		lap("part_H_parents_share_a_segment")
 	}
 	if !r.Expired() {
 		partHDisk(r, ck, states)
